@@ -103,9 +103,17 @@ pub(crate) fn add_key_output_from_action_to_key_pos(
             add_key_output_from_action_to_key_pos(osc_slot, left, outputs, overrides);
             add_key_output_from_action_to_key_pos(osc_slot, right, outputs, overrides);
         }
-        Action::Chords(ChordsGroup { chords, .. }) => {
-            for (_, ac) in chords.iter() {
-                add_key_output_from_action_to_key_pos(osc_slot, ac, outputs, overrides);
+        Action::Chords(ChordsGroup { coords, chords, .. }) => {
+            // Only the chords that this key takes part in: the output of another key's chord is
+            // not an output of this key.
+            let this_key = coords
+                .iter()
+                .filter(|((_, col), _)| *col == u16::from(osc_slot))
+                .fold(0, |acc, (_, chord_keys)| acc | chord_keys);
+            for (chord_keys, ac) in chords.iter() {
+                if this_key == 0 || chord_keys & this_key != 0 {
+                    add_key_output_from_action_to_key_pos(osc_slot, ac, outputs, overrides);
+                }
             }
         }
         Action::Switch(Switch { cases }) => {
